@@ -99,11 +99,44 @@ fn birkhoff_case(cx: &mut Cx, rng: &mut impl RngCore, n: usize, lagrange: bool, 
     if singular && n >= 2 { params[1] = params[0]; }
     // also a non-Hermite but usually admissible pattern: rank gaps
     if !lagrange && !singular && n >= 3 && rng.gen_bool(0.3) { let x = params[n - 1].0; params[n - 1] = (x + Scalar::ONE, 1); }
+    let stream = if singular { "birkhoff-singular" } else if lagrange { "lagrange" } else { "birkhoff" };
+    birkhoff_run(cx, rng, params, stream, lagrange);
+}
+
+/// every ORDER of every Hermite pattern on n pairs (multiplicities = a composition of n, ranks 0..mult-1 per point, all
+/// distinct arrangements): the pivot search of the elimination meets every pattern of leading zeros, at every distance
+fn birkhoff_orders(cx: &mut Cx, rng: &mut impl RngCore, n: usize) -> usize {
+    fn parts(n: usize, max: usize, cur: &mut Vec<usize>, out: &mut Vec<Vec<usize>>) {
+        if n == 0 { out.push(cur.clone()); return; }
+        for k in (1..=n.min(max)).rev() { cur.push(k); parts(n - k, k, cur, out); cur.pop(); }
+    }
+    fn perms(items: &mut Vec<(u64, usize)>, k: usize, out: &mut Vec<Vec<(u64, usize)>>) {
+        if k == items.len() { out.push(items.clone()); return; }
+        for i in k..items.len() { items.swap(k, i); perms(items, k + 1, out); items.swap(k, i); }
+    }
+    let mut ps = vec![]; parts(n, n, &mut vec![], &mut ps);
+    let mut count = 0;
+    for part in ps {
+        let mut items: Vec<(u64, usize)> = vec![];
+        for (pi, m) in part.iter().enumerate() { for r in 0..*m { items.push((pi as u64, r)); } }
+        let mut all = vec![]; perms(&mut items, 0, &mut all);
+        for arrangement in all {
+            // fresh points per arrangement: small ones and random ones
+            let xs: Vec<Scalar> = (0..part.len()).map(|i| if count % 2 == 0 { Scalar::from(i as u64 + 1) } else { Scalar::random(&mut *rng) }).collect();
+            let params: Vec<(Scalar, usize)> = arrangement.iter().map(|(pi, r)| (xs[*pi as usize], *r)).collect();
+            birkhoff_run(cx, rng, params, "birkhoff-orders", part.iter().all(|m| *m == 1));
+            count += 1;
+        }
+    }
+    count
+}
+
+fn birkhoff_run(cx: &mut Cx, rng: &mut impl RngCore, params: Vec<(Scalar, usize)>, stream: &str, lagrange: bool) {
+    let n = params.len();
     let pairs = params.iter().map(|(x, r)| format!("{}:{r}", sc_hex(x))).collect::<Vec<_>>().join(",");
     let nz: Vec<(NonZeroScalar<Secp256k1>, usize)> = params.iter().map(|(x, r)| (NonZeroScalar::<Secp256k1>::new(*x).unwrap(), *r)).collect();
     let got = catch_unwind(AssertUnwindSafe(|| birkhoff_coeffs::<Secp256k1>(&nz)));
     let req = format!("math birkhoff {pairs}");
-    let stream = if singular { "birkhoff-singular" } else if lagrange { "lagrange" } else { "birkhoff" };
     let idx = cx.rep.case(stream, Some(&req));
     cx.rep.hist(&format!("{stream}:n={n}"));
     let model = cx.drv.ask(&req);
@@ -169,6 +202,10 @@ pub fn run(o: &Opts, drv: &mut Driver, rep: &mut Report) {
     // polynomials of every degree 0..=24
     let reps = (if thorough { 12 } else { 1 }) * o.scale;
     for r in 0..reps { for deg in 0..=24usize { poly_case(&mut cx, &mut rng, deg, r * 25 + deg as u64); } }
+    // Birkhoff: every arrangement of every Hermite pattern up to 4 (quick) / 6 (thorough) pairs
+    let omax = if thorough { 6 } else { 4 };
+    let mut total = 0; for n in 1..=omax { total += birkhoff_orders(&mut cx, &mut rng, n); }
+    cx.rep.exhaustive.push(format!("birkhoff_coeffs on every arrangement of every Hermite rank pattern with n <= {omax} pairs ({total} arrangements)"));
     // Birkhoff / Lagrange
     let nmax = if thorough { 10 } else { 7 };
     let reps = (if thorough { 30 } else { 3 }) * o.scale;
